@@ -1162,5 +1162,150 @@ theorem answers_eq_danswersAll (lines : List String) (hp : ∀ l ∈ lines, line
     answers lines = danswersAll lines :=
   answers_foldlAll lines _ _ _ relA_empty hp
 
+/-! ### forgetting the masks: the value part is the interpreter of the earlier campaigns
+
+On the plain, scalar and bit lines the VALUE part of `dstepArgsAll` is `ApiDenseBits.dstepArgsB`
+(= `ApiDenseScalar.dstepArgsS` = `ApiDense.dstepArgs` on their lines), on `upg` / `fracdet` it is
+`ApiDenseMulti.dstepArgsM`: forgetting the masks commutes with these lines and the answers are
+the same.  (No such statement for the boolean family, `mop` and `deg`: their answers are not
+functions of the value-only dense world — `C11.exNoCov`, `C06.cexA` … `cexD`.) -/
+
+section forget
+
+/-- a line that binds the result of a lifted computation under one of two names -/
+theorem toDense_bind2 (D : DenseWorldC) (cov : Nat → Bool) (r : Except Err DenseMap) (c : Bool)
+    (n1 n2 : String) :
+    (match withCov cov r with
+      | .ok d' => if c then (D.bind n1 d', "ok") else (D.bind n2 d', "ok")
+      | .error e => (D, errLine e)).1.toDense =
+    (match r with
+      | .ok d' => if c then (D.toDense.bind n1 d', "ok") else (D.toDense.bind n2 d', "ok")
+      | .error e => (D.toDense, errLine e)).1 ∧
+    (match withCov cov r with
+      | .ok d' => if c then (D.bind n1 d', "ok") else (D.bind n2 d', "ok")
+      | .error e => (D, errLine e)).2 =
+    (match r with
+      | .ok d' => if c then (D.toDense.bind n1 d', "ok") else (D.toDense.bind n2 d', "ok")
+      | .error e => (D.toDense, errLine e)).2 := by
+  cases r with
+  | error e => exact ⟨rfl, rfl⟩
+  | ok d' =>
+    cases c
+    · exact ⟨toDense_bind _ _ _, rfl⟩
+    · exact ⟨toDense_bind _ _ _, rfl⟩
+
+/-- … under one name -/
+theorem toDense_bind1 (D : DenseWorldC) (cov : Nat → Bool) (r : Except Err DenseMap) (n : String) :
+    (match withCov cov r with
+      | .ok d' => (D.bind n d', "ok")
+      | .error e => (D, errLine e)).1.toDense =
+    (match r with
+      | .ok d' => (D.toDense.bind n d', "ok")
+      | .error e => (D.toDense, errLine e)).1 ∧
+    (match withCov cov r with
+      | .ok d' => (D.bind n d', "ok")
+      | .error e => (D, errLine e)).2 =
+    (match r with
+      | .ok d' => (D.toDense.bind n d', "ok")
+      | .error e => (D.toDense, errLine e)).2 := by
+  cases r with
+  | error e => exact ⟨rfl, rfl⟩
+  | ok d' => exact ⟨toDense_bind _ _ _, rfl⟩
+
+/-- **forgetting the masks, a plain, scalar or bit line is the line of `ApiDenseBits.dstepArgsB`** -/
+theorem toDense_stepArgsAll (D : DenseWorldC) {op : String} (a : Args)
+    (hp : plainOp op = true ∨ ApiDenseScalar.famOp op = true ∨ ApiDenseBits.famOp op = true) :
+    (dstepArgsAll D op a).1.toDense = (ApiDenseBits.dstepArgsB D.toDense op a).1 ∧
+      (dstepArgsAll D op a).2 = (ApiDenseBits.dstepArgsB D.toDense op a).2 := by
+  rcases hp with hp | hp | hp
+  · rw [dstepArgsAll_plain hp, ApiDenseBits.dstepArgsB_plain hp, ApiDenseScalar.dstepArgsS_plain hp]
+    exact toDense_stepArgsC D hp a
+  · rcases ApiDenseScalar.famOp_cases hp with rfl | rfl | rfl | rfl | rfl | rfl | rfl
+    · exact toDense_withMap (k' := fun d => (D.toDense.bind (a.getD "r" "tmp") d, "ok"))
+        fun d _ => ⟨toDense_bind _ _ _, rfl⟩
+    · exact toDense_withMap (k' := fun d => (D.toDense,
+        showList toString ((ApiDenseScalar.dValidSet d).map fun p => ((p : Nat) : Int))))
+        fun d _ => ⟨rfl, rfl⟩
+    · exact toDense_withMap (k' := fun d => (D.toDense, toString (ApiDenseScalar.dValidSet d).length))
+        fun d _ => ⟨rfl, rfl⟩
+    · exact toDense_withMap (k' := fun d =>
+        (D.toDense, showNats ((List.range d.hdr.c.ncov).map fun k =>
+          ((ApiDenseScalar.dValidSet d).filter fun p => p >>> d.hdr.c.shift == k).length)))
+        fun d _ => ⟨rfl, rfl⟩
+    · show (dSopOpC D a).1.toDense = (ApiDenseScalar.dSopOp D.toDense a).1 ∧
+        (dSopOpC D a).2 = (ApiDenseScalar.dSopOp D.toDense a).2
+      unfold dSopOpC ApiDenseScalar.dSopOp
+      refine toDense_withMap fun d _ => ?_
+      cases ApiScalar.sopArg a with
+      | none => exact ⟨rfl, rfl⟩
+      | some k => exact toDense_bind2 D d.cov _ _ _ _
+    · show (dMaskOpC D a).1.toDense = (ApiDenseScalar.dMaskOp D.toDense a).1 ∧
+        (dMaskOpC D a).2 = (ApiDenseScalar.dMaskOp D.toDense a).2
+      unfold dMaskOpC ApiDenseScalar.dMaskOp
+      refine toDense_withMap fun d _ => ?_
+      rw [toDense_get?]
+      cases D.get? (a.getD "by" "") with
+      | none => exact ⟨rfl, rfl⟩
+      | some dk => exact toDense_bind2 D d.cov _ _ _ _
+    · show (dAstypeOpC D a).1.toDense = (ApiDenseScalar.dAstypeOp D.toDense a).1 ∧
+        (dAstypeOpC D a).2 = (ApiDenseScalar.dAstypeOp D.toDense a).2
+      unfold dAstypeOpC ApiDenseScalar.dAstypeOp
+      refine toDense_withMap fun d _ => ?_
+      cases (a.get? "dtype").bind parseDT <;> cases optVal a "sentinel"
+      · exact ⟨rfl, rfl⟩
+      · exact ⟨rfl, rfl⟩
+      · exact ⟨rfl, rfl⟩
+      · exact toDense_bind1 D d.cov _ _
+  · rcases ApiDenseBits.famOp_cases hp with rfl | rfl
+    · show (dBitsOpC D a).1.toDense = (ApiDenseBits.dBitsOp D.toDense a).1 ∧
+        (dBitsOpC D a).2 = (ApiDenseBits.dBitsOp D.toDense a).2
+      unfold dBitsOpC ApiDenseBits.dBitsOp
+      refine toDense_withMap fun d _ => ?_
+      cases parseNats (a.getD "pix" "_") <;> cases parseNats (a.getD "bits" "_")
+      · exact ⟨rfl, rfl⟩
+      · exact ⟨rfl, rfl⟩
+      · exact ⟨rfl, rfl⟩
+      · exact toDense_bind1 D (bitsCov d _) _ _
+    · show (dChkOpC D a).1.toDense = (ApiDenseBits.dChkOp D.toDense a).1 ∧
+        (dChkOpC D a).2 = (ApiDenseBits.dChkOp D.toDense a).2
+      unfold dChkOpC ApiDenseBits.dChkOp
+      refine toDense_withMap fun d _ => ?_
+      cases parseNats (a.getD "pix" "_") <;> cases parseNats (a.getD "bits" "_")
+      · exact ⟨rfl, rfl⟩
+      · exact ⟨rfl, rfl⟩
+      · exact ⟨rfl, rfl⟩
+      · rename_i pix bits
+        simp only []
+        cases ApiDenseBits.dCheckBits d.toDense pix bits <;> exact ⟨rfl, rfl⟩
+
+/-- **forgetting the masks, `upg` and `fracdet` are the lines of `ApiDenseMulti.dstepArgsM`** -/
+theorem toDense_stepArgsAll_res (D : DenseWorldC) {op : String} (a : Args)
+    (hp : op = "upg" ∨ op = "fracdet") :
+    (dstepArgsAll D op a).1.toDense = (ApiDenseMulti.dstepArgsM D.toDense op a).1 ∧
+      (dstepArgsAll D op a).2 = (ApiDenseMulti.dstepArgsM D.toDense op a).2 := by
+  rcases hp with rfl | rfl
+  · show (dUpgOpC D a).1.toDense = (ApiDenseMulti.dUpg D.toDense a).1 ∧
+      (dUpgOpC D a).2 = (ApiDenseMulti.dUpg D.toDense a).2
+    unfold dUpgOpC ApiDenseMulti.dUpg
+    refine toDense_withMap fun d _ => ?_
+    cases a.nat? "ord" with
+    | none => exact ⟨rfl, rfl⟩
+    | some ord => exact toDense_bind1 D d.cov _ _
+  · show (dFracdetOpC D a).1.toDense = (ApiDenseMulti.dFracdet D.toDense a).1 ∧
+      (dFracdetOpC D a).2 = (ApiDenseMulti.dFracdet D.toDense a).2
+    unfold dFracdetOpC ApiDenseMulti.dFracdet
+    refine toDense_withMap fun d _ => ?_
+    cases a.get? "r" <;> cases a.nat? "ord"
+    · exact ⟨rfl, rfl⟩
+    · exact ⟨rfl, rfl⟩
+    · exact ⟨rfl, rfl⟩
+    · rename_i r ord
+      simp only []
+      split
+      · exact ⟨rfl, rfl⟩
+      · exact ⟨toDense_bind _ _ _, rfl⟩
+
+end forget
+
 end ApiDenseAll
 end HS
